@@ -167,7 +167,7 @@ def gen_rt(ctx, h1):
                     "nice=%d" % rng.choice([8, 16, 32]), "depth=%d" % rng.choice([0, 4]), "pb=%d" % rng.randrange(5),
                     gen_spec(rng, rng.randrange(250000, 450000), rng.choice(["rnd", "rnd", "inc"]))] + slice_key(rng, 0.3))
     # -- random part ------------------------------------------------------------------------------
-    n_random = 260 if quick else 4200
+    n_random = 700 if quick else 4200
     for _ in range(n_random):
         api = rng.choice(["easy", "sbuf", "stream", "alone", "raw", "raw", "rawbuf", "micro", "mt"])
         size = small_size(rng)
@@ -253,6 +253,9 @@ def gen_trace(ctx, h1, work):
             model.append("lzma1 %d %d %d %d %d 0 0 %s" % (o["lc"], o["lp"], o["pb"], o["dict"], eopm, prefix))
             if eopm == 1:
                 model.append("dec1 %d %d %d %d %s" % (o["lc"], o["lp"], o["pb"], o["dict"], prefix))
+                if size <= 12000 and pdn <= 12000:
+                    # the list-level specification functions of the theorems (quadratic; small cases only)
+                    model.append("spec1 %d %d %d %d %s" % (o["lc"], o["lp"], o["pb"], o["dict"], prefix))
         else:
             keys.append("limit=%d" % limit)
             keys = [k for k in keys if not k.startswith("slice=")]
@@ -290,7 +293,7 @@ def gen_trace(ctx, h1, work):
             force=dict(dict=rng.choice([65536, 1 << 20]), mode=2, mf=rng.choice(["bt2", "bt2", "bt3"]), nice=rng.choice([8, 16, 32]),
                        depth=rng.choice([0, 4]), pb=rng.randrange(5), lp=rng.randrange(3), lc=rng.randrange(3)))
     # random
-    for _ in range(150 if quick else 2200):
+    for _ in range(380 if quick else 2200):
         r = rng.random()
         size = small_size(rng)
         if not quick and rng.random() < 0.05:
@@ -498,60 +501,69 @@ def run(ctx):
                 ctx.obligation_broken("generator produced a configuration liblzma rejects (machinery defect or changed validation)", ln + " -> " + o)
     ctx.log("K2 round trips: %d ops, %d failures, %.0fs" % (len(rt_lines), fails, time.time() - t1))
 
-    # K3: exact bytes through the symbol trace
+    # K3: exact bytes through the symbol trace (hook H2); without the hook: the same configurations through `rt raw|micro`
+    # with dumped payloads, decoded by the model decoder only
     tr_total = tr_mism = 0
-    if h2:
-        t2 = time.time()
-        work = os.path.join(vlib.CACHE, "c01-work", "seed%d-%s" % (ctx.seed, ctx.tier))
-        shutil.rmtree(work, ignore_errors=True)
-        os.makedirs(work, exist_ok=True)
-        cases = gen_trace(ctx, h1, work)
-        tr_lines = [c[0] for c in cases]
-        tr_out, errs = run_par(exe, tr_lines)
-        for (pi, rc, err, ln) in errs[:4]:
-            ctx.violation("harness-abort", {"kind": "implementation aborted (sanitizer/assert/crash) during a traced encode", "op": ln, "stderr": err}, True)
-        mlines, mowner = [], []
-        for ci, ((ln, models, prefix), o) in enumerate(zip(cases, tr_out)):
-            count_line(ctx, "trace", ln)
-            ctx.case(ln, nontrivial=(",0 " not in ln + " "), sample={"op": ln[:200], "impl": o} if ci % 61 == 0 else None)
-            if o is None:
-                continue
-            if o.startswith("FAIL"):
-                fails += 1
-                if fails <= 5:
-                    ctx.violation("roundtrip-traced", {"kind": "real encoder -> real decoder does not reproduce the input", "op": ln, "impl": o}, True)
-            elif o.startswith("ok"):
-                for m in models:
-                    mlines.append(m)
-                    mowner.append(ci)
-            elif not (o.startswith("rejected") and " micro " in ln):
-                ctx.obligation_broken("trace op not answered with ok", ln + " -> " + o)
-        if model_ok and mlines:
-            m_out, merrs = run_par(mexe, mlines, timeout=6000)
-            if merrs:
-                ctx.obligation_broken("model driver xzm_c01 failed on trace ops", str(merrs)[:2000])
-            for m, o, ci in zip(mlines, m_out, mowner):
-                tr_total += 1
-                ctx.count("model " + m.split()[0])
-                if o is None or not o.startswith("ok"):
-                    tr_mism += 1
-                    if tr_mism <= 4:
-                        keep = os.path.join(ctx.replay_path("trace-files") + ".d")
-                        os.makedirs(keep, exist_ok=True)
-                        for ext in ("in", "out", "trace", "pd"):
-                            src = cases[ci][2] + "." + ext
-                            if os.path.exists(src) and os.path.getsize(src) < (4 << 20):
-                                shutil.copy(src, keep)
-                        what = ("the parser's symbol trace is not a valid description of the data" if (o or "").startswith("DESCRIBES")
-                                else "model decoder does not reproduce the input" if m.startswith("dec") else
-                                "model symbol coder/range coder/LZMA2 chunker does not reproduce the C bytes")
-                        ctx.obligation_broken("correspondence C01/trace: " + what,
-                                              json.dumps({"op": cases[ci][0], "model_op": m, "model": o, "files": keep}))
-                        suspicious.append(cases[ci][0])
-        ctx.log("K3 exact bytes: %d traced encodes, %d model checks, %d disagreements, %.0fs" % (len(cases), tr_total, tr_mism, time.time() - t2))
-        shutil.rmtree(work, ignore_errors=True)
-    else:
-        ctx.log("K3 skipped: hook H2 (lzma_verif_sym_cb) is not in the build")
+    t2 = time.time()
+    work = os.path.join(vlib.CACHE, "c01-work", "seed%d-%s" % (ctx.seed, ctx.tier))
+    shutil.rmtree(work, ignore_errors=True)
+    os.makedirs(work, exist_ok=True)
+    cases = gen_trace(ctx, h1, work)
+    if not h2:
+        conv = []
+        for (ln, models, prefix) in cases:
+            t = ln.split()
+            if t[1] == "micro":
+                conv.append(("rt micro " + " ".join(t[2:]), [], prefix))
+            else:
+                conv.append(("rt raw chain=%s %s" % (t[1], " ".join(t[2:])), [m for m in models if m.startswith("dec")], prefix))
+        cases = conv
+        ctx.log("hook H2 (lzma_verif_sym_cb) is not in the build: exact-bytes tie skipped, model decoder only")
+    tr_lines = [c[0] for c in cases]
+    tr_out, errs = run_par(exe, tr_lines)
+    for (pi, rc, err, ln) in errs[:4]:
+        ctx.violation("harness-abort", {"kind": "implementation aborted (sanitizer/assert/crash) during a traced encode", "op": ln, "stderr": err}, True)
+    mlines, mowner = [], []
+    for ci, ((ln, models, prefix), o) in enumerate(zip(cases, tr_out)):
+        count_line(ctx, "trace", ln)
+        ctx.case(ln, nontrivial=(",0 " not in ln + " "), sample={"op": ln[:200], "impl": o} if ci % 61 == 0 else None)
+        if o is None:
+            continue
+        if o.startswith("FAIL"):
+            fails += 1
+            if fails <= 5:
+                ctx.violation("roundtrip-traced", {"kind": "real encoder -> real decoder does not reproduce the input", "op": ln, "impl": o}, True)
+        elif o.startswith("ok"):
+            for m in models:
+                mlines.append(m)
+                mowner.append(ci)
+        elif not (o.startswith("rejected") and " micro " in ln):
+            ctx.obligation_broken("trace op not answered with ok", ln + " -> " + o)
+    if model_ok and mlines:
+        m_out, merrs = run_par(mexe, mlines, timeout=6000)
+        if merrs:
+            ctx.obligation_broken("model driver xzm_c01 failed on trace ops", str(merrs)[:2000])
+        for m, o, ci in zip(mlines, m_out, mowner):
+            tr_total += 1
+            ctx.count("model " + m.split()[0])
+            if o is None or not o.startswith("ok"):
+                tr_mism += 1
+                if tr_mism <= 4:
+                    keep = os.path.join(ctx.replay_path("trace-files") + ".d")
+                    os.makedirs(keep, exist_ok=True)
+                    for ext in ("in", "out", "trace", "pd"):
+                        src = cases[ci][2] + "." + ext
+                        if os.path.exists(src) and os.path.getsize(src) < (4 << 20):
+                            shutil.copy(src, keep)
+                    what = ("the parser's symbol trace is not a valid description of the data" if (o or "").startswith("DESCRIBES")
+                            else "model decoder does not reproduce the input" if m.startswith("dec") else
+                            "specification encoder/decoder (the functions of the theorems) disagree with the C bytes" if m.startswith("spec") else
+                            "model symbol coder/range coder/LZMA2 chunker does not reproduce the C bytes")
+                    ctx.obligation_broken("correspondence C01/trace: " + what,
+                                          json.dumps({"op": cases[ci][0], "model_op": m, "model": o, "files": keep}))
+                    suspicious.append(cases[ci][0])
+    ctx.log("K3 exact bytes: %d traced encodes, %d model checks, %d disagreements, %.0fs" % (len(cases), tr_total, tr_mism, time.time() - t2))
+    shutil.rmtree(work, ignore_errors=True)
     ctx.cov["correspondence"] = {"rc_ops": len(rc_lines), "rc_mismatches": mism, "roundtrip_ops": len(rt_lines), "roundtrip_failures": fails,
                                  "traced_model_checks": tr_total, "traced_disagreements": tr_mism, "model_ran": bool(model_ok)}
     # S
